@@ -98,13 +98,18 @@ def main(argv=None):
         else:
             results.append(r)
             by_key[json.dumps(r["shard"], sort_keys=True, default=repr)] = r
+    t_pool = time.time() - t0
     tot = report.merge(results)
     meta = mod.meta(a.tier, seed) if hasattr(mod, "meta") else dict(getattr(mod, "META", {}))
 
     # determinism probe: same shards again in this process tree and in a fresh interpreter
     det_note, det_error = "", None
     if not errors and shards and not a.only:
-        probe = mod.determinism_shards(shards) if hasattr(mod, "determinism_shards") else shards[:1]
+        if hasattr(mod, "determinism_shards"):
+            probe = mod.determinism_shards(shards)
+        else:       # the cheapest shard that did real work
+            cand = sorted((r for r in results if r["evaluations"] > 0), key=lambda r: r["wall"])
+            probe = [cand[0]["shard"]] if cand else shards[:1]
         ok = 0
         for s in probe:
             key = json.dumps(s, sort_keys=True, default=repr)
@@ -120,6 +125,7 @@ def main(argv=None):
             ok += 1
         det_note = "%d shard(s) re-executed in-process and in a fresh interpreter with identical observation digests" % ok
     meta["determinism"] = det_note
+    meta["phases_s"] = {"explore": round(t_pool, 1), "determinism_probe": round(time.time() - t0 - t_pool, 1)}
 
     wall = time.time() - t0
     error = None
